@@ -21,7 +21,8 @@ bool isPow2(double p) {int e; return std::frexp(p, &e) == 0.5;}
 
 struct Op
 {
-  int kind;      // 0 = update/append one value, 1 = reset/clear, 2 = burst of `count` updates
+  int kind;      // 0 = update/append one value, 1 = reset/clear, 2 = burst of `count` updates,
+                 // 3 = continue on a copy-constructed object (statistics only)
   double v;      // value (kind 0) or base (kind 2)
   double step;   // kind 2: value_k = v + step * (k % period)
   int count;     // kind 2
@@ -141,6 +142,17 @@ Outcome runStats(const Plan & p, Ctx & c)
   {Outcome o = observe("construction"); if (!o.ok) {return o;}}
   for (const Op & op : p.ops) {
     ++opNo;
+    if (op.kind == 3) {
+      // the copy constructor must carry the whole window over: the history continues on the copy
+      SIM_COUNT("op.copy_construct");
+      if (!win.empty() && win.size() < W) {SIM_PROBE("copy_while_window_partly_full");}
+      if (sinceReset > W) {SIM_PROBE("copy_after_wrap");}
+      if (variance) {var = new romea::core::OnlineVariance(*var); avg.reset(var);} else {avg.reset(new romea::core::OnlineAverage(*avg));}
+      ++c.steps; c.note(fmt("#%llu continue on a copy", (unsigned long long)opNo));
+      if (avg->getWindowSize() != W) {return Outcome::fail("window-size-mismatch", fmt("after op #%llu (copy): getWindowSize()=%zu, configured %zu", (unsigned long long)opNo, avg->getWindowSize(), W));}
+      Outcome o = observe("copy"); if (!o.ok) {return o;}
+      continue;
+    }
     if (op.kind == 1) {
       SIM_COUNT("fault.reset.fired");
       if (win.empty() && sinceReset == 0) {SIM_PROBE("reset_before_any_data");}
@@ -214,6 +226,11 @@ Outcome runRing(const Plan & p, Ctx & c)
   {Outcome o = observe("construction"); if (!o.ok) {return o;}}
   for (const Op & op : p.ops) {
     ++opNo;
+    if (op.kind == 3) {
+      // the ring's storage as a plain vector: same items, storage order is not part of the statement
+      if (ring.get().size() != model.size()) {return Outcome::fail("ring-size-mismatch", fmt("after op #%llu: get().size()=%zu, expected %zu", (unsigned long long)opNo, ring.get().size(), model.size()));}
+      continue;
+    }
     if (op.kind == 1) {
       SIM_COUNT("fault.clear.fired");
       if (!model.empty() && sinceClear % cap != 0) {SIM_PROBE("clear_with_ring_index_mid_ring");}
@@ -271,6 +288,7 @@ struct PropC16
 
   static Op U(double v) {return Op {0, v, 0, 1, 1};}
   static Op R() {return Op {1, 0, 0, 0, 1};}
+  static Op C() {return Op {3, 0, 0, 0, 1};}
   static Op B(double base, double step, int count, int period) {return Op {2, base, step, count, period};}
 
   void buildScripted()
@@ -286,6 +304,7 @@ struct PropC16
       scriptedPlans.push_back(p);}
     {Plan p; p.subject = 3; p.W = 4; p.ops = {U(1), U(2), R(), U(3), U(4), U(5), U(6), U(7)};
       scriptedPlans.push_back(p);}
+    {Plan p; p.subject = 1; p.W = 3; p.prec = 2; p.ops = {U(1), C(), U(2), U(3), U(4), C(), U(5), R(), C(), U(6), U(7)}; scriptedPlans.push_back(p);}
     {Plan p; p.subject = 0; p.W = 2; p.prec = 9; p.viaSetWindowSize = true;
       p.ops = {R(), U(0.5), U(-0.25), U(3), R(), U(1)}; scriptedPlans.push_back(p);}
   }
@@ -329,6 +348,7 @@ struct PropC16
     const double precision = kPrecisions[p.prec];
     const bool exact = isPow2(precision);
     double pRestart = r.pick({0.0, 0.02, 0.1, 0.3});
+    double pCopy = r.pick({0.0, 0.0, 0.05, 0.2});
     if (pRestart > 0) {SIM_COUNT(stats ? "fault.reset.configured" : "fault.clear.configured");}
     int regime = (int)r.below(7);
     double c0 = drawValue(r, 2, precision, exact, 0, 0, 0) * 0.5;
@@ -355,6 +375,7 @@ struct PropC16
         if (r.chance(0.2)) {p.ops.push_back(R());}
         continue;
       }
+      if (r.chance(pCopy)) {p.ops.push_back(C());}
       if (stats) {p.ops.push_back(U(drawValue(r, regime, precision, exact, k, c0, c1)));} else {
         p.ops.push_back(U((double)item++));
       }
@@ -395,6 +416,8 @@ struct PropC16
       Json e = Json::object();
       if (o.kind == 0) {e.set("op", p.subject < 2 ? "update" : "append").set("v", o.v);} else if (o.kind == 1) {
         e.set("op", p.subject < 2 ? "reset" : "clear");
+      } else if (o.kind == 3) {
+        e.set("op", p.subject < 2 ? "continue_on_copy" : "check_storage_vector");
       } else {
         e.set("op", "burst").set("base", o.v).set("step", o.step).set("count", o.count).set("period", o.period);
       }
@@ -411,6 +434,7 @@ struct PropC16
       const std::string & k = e["op"].s();
       if (k == "update" || k == "append") {p.ops.push_back(U(e["v"].d()));} else if (k == "reset" || k == "clear") {
         p.ops.push_back(R());
+      } else if (k == "continue_on_copy" || k == "check_storage_vector") {p.ops.push_back(C());
       } else {p.ops.push_back(B(e["base"].d(), e["step"].d(), (int)e["count"].i(), (int)e["period"].i()));}
     }
     return p;
@@ -476,6 +500,7 @@ struct PropC16
   {
     bool data = false, restartAfterData = false;
     for (auto & o : p.ops) {
+      if (o.kind == 3) {continue;}
       if (o.kind == 1) {if (data) {restartAfterData = true;}} else {
         if (restartAfterData) {return true;}
         data = true;
@@ -486,7 +511,7 @@ struct PropC16
   std::string signature(const Plan & p, const Outcome & o) const
   {
     std::string s = o.cls + "|" + subjectName(p.subject) + "|";
-    for (auto & op : p.ops) {s += op.kind == 0 ? "U" : (op.kind == 1 ? "R" : "B");}
+    for (auto & op : p.ops) {s += op.kind == 0 ? "U" : (op.kind == 1 ? "R" : (op.kind == 3 ? "C" : "B"));}
     return s;
   }
   std::vector<uint64_t> sampleIndexes() const
@@ -499,7 +524,7 @@ struct PropC16
     return {"reset_before_any_data", "reset_while_window_partly_full", "reset_after_wrap_mid_window",
       "reset_exactly_at_window_boundary", "reset_twice_in_a_row", "window_wrapped_again_after_reset",
       "ten_windows_of_data", "long_run_10000_windows", "variance_scale_factor_squared_exceeds_32_bits",
-      "clear_with_ring_index_mid_ring", "clear_of_empty_ring", "ring_capacity_not_power_of_two_wrapped",
+      "copy_while_window_partly_full", "copy_after_wrap", "clear_with_ring_index_mid_ring", "clear_of_empty_ring", "ring_capacity_not_power_of_two_wrapped",
       "ring_wrapped_again_after_clear"};
   }
   Json describe() const
